@@ -164,8 +164,18 @@ class Vec(Sym):
     def sel(self, i):
         return self._sel(i)
 
+    def frozen_sel(self):
+        """The contents as they are NOW: numpy results (copies, elementwise results, fancy takes) do not change when an operand
+        is stored into later.  A plain array is rebound on every store, so its current closure is a snapshot; a slice view reads
+        through its base, so the base is snapshotted."""
+        if self.base is None:
+            return self._sel
+        b, off = self.base
+        bs = b.frozen_sel()
+        return lambda i: bs(i + off)
+
     def copy(self):
-        s = self._sel
+        s = self.frozen_sel()
         return Vec(self.kind, self.n, s, self.name + "'")
 
     # -- quantified summaries
@@ -316,8 +326,8 @@ class Vec(Sym):
             ok = idx.forall(lambda k, e: z3.And(e >= -self.n, e < self.n))
             if not ctx.branch(ok):
                 raise PyRaise('IndexError')
-            me = self
-            return Vec(self.kind, idx.n, lambda k: me.sel(z3.If(idx.sel(k) < 0, idx.sel(k) + me.n, idx.sel(k))), '%s[%s]' % (self.name, idx.name))
+            ms, xs, mn = self.frozen_sel(), idx.frozen_sel(), self.n  # a fancy take is a copy
+            return Vec(self.kind, idx.n, lambda k: ms(z3.If(xs(k) < 0, xs(k) + mn, xs(k))), '%s[%s]' % (self.name, idx.name))
         raise Unsupported('array index %r' % (idx,))
 
     def _write(self, newsel):
@@ -410,9 +420,12 @@ class Vec(Sym):
             if not ctx.branch(z3.Or(other.n == a.n, other.n == 1, a.n == 1)):
                 raise PyRaise('ValueError', note='operands could not be broadcast together')
             n = z3.If(a.n == 1, other.n, a.n) if not z3.eq(a.n, other.n) else a.n
-            return Vec(kind, z3.simplify(n), lambda i: f(a.sel(z3.If(a.n == 1, 0, i) if not z3.eq(a.n, other.n) else i), other.sel(z3.If(other.n == 1, 0, i) if not z3.eq(a.n, other.n) else i)), '(%s op %s)' % (a.name, other.name))
+            sa, sb, na, nb = a.frozen_sel(), other.frozen_sel(), a.n, other.n  # elementwise results are new arrays
+            same = z3.eq(na, nb)
+            return Vec(kind, z3.simplify(n), lambda i: f(sa(i if same else z3.If(na == 1, 0, i)), sb(i if same else z3.If(nb == 1, 0, i))), '(%s op %s)' % (a.name, other.name))
         e = unwrap(a.kind if a.kind != 'bool' or not is_intlike(other) else 'bool', other) if not isinstance(other, SFp) else unwrap('fp', other)
-        return Vec(kind, a.n, lambda i: f(a.sel(i), e), '(%s op c)' % a.name)
+        sa = a.frozen_sel()
+        return Vec(kind, a.n, lambda i: f(sa(i), e), '(%s op c)' % a.name)
 
     def compare(self, ctx, op, other, reflected):
         if self.kind == 'int' and (is_intlike(other) or (isinstance(other, Vec) and other.kind == 'int')):
@@ -633,7 +646,8 @@ class Numpy:
     def _cmp_out(self, ctx, a, b, out, f):
         if not ctx.branch(a.n == b.n):
             raise PyRaise('ValueError', note='operands could not be broadcast together')
-        r = Vec('bool', a.n, lambda i: f(a.sel(i), b.sel(i)), 'cmp')
+        sa, sb = a.frozen_sel(), b.frozen_sel()  # the comparison is evaluated now
+        r = Vec('bool', a.n, lambda i: f(sa(i), sb(i)), 'cmp')
         if out is None:
             return r
         if not ctx.branch(out.n == a.n):
